@@ -683,6 +683,16 @@ def elems(env, x):
 
 
 @ghost()
+def same_items(env, a, b):
+    """a is a tuple holding exactly the elements iteration over b yields"""
+    at, bt = env.to_val(a), env.to_val(b)
+    j = z3.Int("sj!")
+    return z3.And(T.F_cls(at) == env.interp.reg.cls(tuple), T.F_len(at) == T.F_len(bt),
+                  z3.ForAll([j], z3.Implies(z3.And(j >= 0, j < T.F_len(bt)), T.F_at(at, j) == T.F_at(bt, j)),
+                            patterns=[T.F_at(at, j), T.F_at(bt, j)]))
+
+
+@ghost()
 def built_from(env, x):
     return V("sym", t=T.F_mkseq(env.to_val(x)))
 
